@@ -239,3 +239,33 @@ func VerifVerify(s *Scheduler, cfg *JobConfiguration) (accepted bool, ready bool
 	}
 	return true, ready
 }
+
+// VerifRaffleRace: `rounds` times, `n` goroutines ask for a ticket for the SAME job id at the same moment; returns the
+// largest number of tickets granted in one round (must be 1) and whether the pool bookkeeping is back to full afterwards.
+func VerifRaffleRace(runner *Runner, rounds, n int) (maxGranted int, poolOk bool) {
+	r := NewRaffle(5, 10, runner.logger, runner.statsdClient)
+	for k := 0; k < rounds; k++ {
+		start := make(chan struct{})
+		res := make(chan *ticket, n)
+		for g := 0; g < n; g++ {
+			go func() {
+				<-start
+				res <- r.borrowTicket(&job{id: "same-job", title: "same-job", pipeline: &IncrementalPipeline{}})
+			}()
+		}
+		close(start)
+		granted := []*ticket{}
+		for g := 0; g < n; g++ {
+			if t := <-res; t != nil {
+				granted = append(granted, t)
+			}
+		}
+		if len(granted) > maxGranted {
+			maxGranted = len(granted)
+		}
+		for _, t := range granted {
+			r.returnTicket(t)
+		}
+	}
+	return maxGranted, r.ticketsFull == 5 && r.ticketsIncr == 10
+}
